@@ -130,6 +130,18 @@ TABLE={ # id: (property, demo file, package dir, -run pattern, needs)
  "C12-h":("C12","zz_seed_demo_test.go","database/repository","TestSeedDemo","a cached webhook list, a webhook deactivated by failures, the same url registered again, then a further event"),
  "C20-c":("C20","zz_seed_demo_test.go","config","TestSeedDemo","the config-file option naming a file called config.yaml in another directory"),
  "C01-g":("C01","zz_seed_demo_test.go","service","TestSeedDemo","a competing header whose cumulative work exactly equals the tip's"),
+ "C08-g":("C08","zz_seed_demo_test.go","transports/http/endpoints/api/merkleroots","TestSeedDemo","a batchSize whose decimal text sorts after \"2000\" while its value is smaller (3..9, 21..99, 201..999)"),
+ "C14-g":("C14","zz_seed_demo_test.go","internal/wire","TestSeedDemo","a getheaders message with an empty locator and a non-zero stop hash"),
+ "C02-h":("C02","zz_seed_demo_test.go","database","TestSeedDemo","a root that is on the longest chain at another height than the one submitted"),
+ "C05-h":("C05","zz_seed_demo_test.go","service","TestSeedDemo","a failure of the promoting UpdateState of a reorganisation onto a branch with stored stale ancestors"),
+ "C09-g":("C09","zz_seed_demo_test.go","transports/http/endpoints","TestSeedDemo","auth on, no credentials, request headers Origin and Access-Control-Request-Method both present"),
+ "C03-g":("C03","zz_seed_demo_test.go","database/repository","TestSeedDemo","a header timestamp carried in a time zone with a non-zero UTC offset (any peer header when the process zone is not UTC)"),
+ "C13-h":("C13","zz_seed_demo_test.go","service","TestSeedDemo","a locator none of whose hashes is on the longest chain (real SQL)"),
+ "C19-g":("C19","zz_seed_demo_test.go","domains","TestSeedDemo","a call with a positive target, then the same non-positive-target bits twice in a row"),
+ "C17-g":("C17","zz_seed_demo_test.go","database","TestSeedDemo","an imported chain ending exactly at the newest checkpoint height with a corrupted (still parsing) row"),
+ "C04-g":("C04","zz_seed_demo_test.go","transports/http/endpoints/api/headers","TestSeedDemo","GET byHeight with height=0"),
+ "C07-g":("C07","zz_seed_demo_test.go","transports/p2p/p2psync","TestSeedDemo","a checkpoint-contradicting header delivered by a peer that is not the current sync peer"),
+ "C06-h":("C06","zz_seed_demo_test.go","transports/p2p/p2psync","TestSeedDemo","the sync peer leaves while the service is behind it and it was the last (or the randomly re-chosen) candidate; an honest peer connects later"),
 }
 ENV=dict(os.environ,GOFLAGS="-mod=mod",GOPROXY="off")
 def run(cmd,cwd,timeout=1500):
